@@ -1,4 +1,5 @@
 import PlaybackModel.S3
+import PlaybackProofs.SourceAtomsS3
 import PlaybackProofs.MetaFilter
 /-! Helper lemmas for the S3 cassette model (C15, C16, C10). -/
 namespace PlaybackModel.S3
